@@ -10,6 +10,70 @@ CHECKS = {
         'packaged TOML. Absence is not established; histories are bounded at 25 steps.',
         'note': 'Trusted: tomllib, Hypothesis. Mutation = attribute assignment. Unknown keys not generated.',
     },
+    'C03': {
+        'category': 'exploration',
+        'technique': 'Hypothesis round-trip PBT with generated field sets vs independent field-by-field model',
+        'text': 'Generated field sets (six dimension shapes x f8/f4/i4/i8/str, required/optional/default), trajectories with '
+        'arbitrary species subsets and unset optional fields, four file layouts (file, memory+save, base+associated, '
+        'create_associated) and an append session; every trajectory read back in-session, after reopen and after append is '
+        'compared bitwise/exactly with the generated description. Bounded search, no absence claim.',
+        'note': 'Trusted: netCDF4/HDF5, numpy. NaN/inf/fill values and zero-point trajectories excluded. One known finding '
+        '(unset optional string reads as empty string, pinned by the repository test_read_nulls).',
+    },
+    'C06': {
+        'category': 'exploration',
+        'technique': 'Hypothesis differential PBT: generated tables/PTF files vs own bilinear reference and unit constants',
+        'text': 'Generated valid tables (any level set, three masses, rows/columns in any order), node exactness (also in '
+        'metres), own bilinear reference between nodes, continuity, dependence only on (altitude, mass, phase), refusal '
+        'outside the envelope, symbolic min/max mass, 11 kinds of malformed table refused, generated PTF text through '
+        'PTFData.load/build_performance_table/the CLI reproduces every row after unit conversion.',
+        'note': 'Trusted: numpy, pandas, scipy.interpn only as code under test. Level spacing >= 0.08 FL; interior queries kept '
+        '2e-3 away from nodes.',
+    },
+    'C07': {
+        'category': 'exploration',
+        'technique': 'Hypothesis rule-based state machine vs Python list model',
+        'text': 'Model-based stateful PBT over one store file: create/add/read/iterate/sync/close/reopen(read|append)/save with '
+        'cache sizes that force evictions; after every rule len and three indices, and at teardown a full rescan after '
+        'reopen, must equal the list model. Histories bounded at 40 steps.',
+        'note': 'Trusted: netCDF4, cachetools. Cache >= 1 MB and each trajectory fits.',
+    },
+    'C08': {
+        'category': 'exploration',
+        'technique': 'Hypothesis rule-based state machine vs dict model (ids in arbitrary order, stale index, append, merge)',
+        'text': 'Stateful PBT over identified stores: distinct int64 ids in arbitrary order, lookups of present/absent ids '
+        'immediately after adds, across sync/close/reopen/append, rejected unidentified additions, and a terminal merge with '
+        'further stores followed by lookup of every id, against a dictionary model.',
+        'note': 'Lookup in a never-saved in-memory store is not claimed. Ids unique; fill value excluded.',
+    },
+    'C12': {
+        'category': 'exploration',
+        'technique': 'Hypothesis differential PBT vs independent scalar implementations of the cited equations + algebraic laws',
+        'text': 'Nine sub-checks (ISA, SLS fuel flow, thrust category, BFFM2 NOx, HC/CO, SOx, FOA3/fuel-flow PMvol, SCOPE11, '
+        'MEEM laws) compare the public functions with math-module references written from the cited equations at rel 1e-9, '
+        'plus inverse/continuity/conservation/linearity/monotonicity laws; references self-tested against published and '
+        'pinned values at start-up.',
+        'note': 'MEEM held to the stated laws only. One known finding (MEEM NaN for low-top climbs; repair would change a value '
+        'pinned by tests/test_emissions.py).',
+    },
+    'C13': {
+        'category': 'exploration',
+        'technique': 'Hypothesis PBT: generated OAG rows/CSV files vs pure-Python oracle (zoneinfo, pyproj) over the SQLite tables',
+        'text': 'Generated schedule files (1-4 literal OAG rows; airport pairs incl. date line and fractional offsets; ranges incl. '
+        'open-ended, DST-spanning; weekday sets; arrival-day codes; distances around the decision band; skip reasons) '
+        'imported row-wise and through convert_oag_data; flights/schedules/airports tables and warnings compared with the '
+        'oracle.',
+        'note': 'Trusted: zoneinfo, pyproj, sqlite SELECT. 76 hand-recorded zones verified against timezonefinder at start-up. One '
+        'known finding (distance rule called with lat/lon swapped; pinned by tests/test_mission_db_creation.py).',
+    },
+    'C14': {
+        'category': 'exploration',
+        'technique': 'Hypothesis differential PBT: generated databases and queries vs naive Python executor over SELECT *',
+        'text': 'Generated and shipped databases; queries over every filter field, legal/illegal spatial mixes, dates, '
+        'every-nth, limit/offset, sampling, count and frequent-route queries, re-execution/to_sql/interleaved histories; '
+        'results compared with a Python evaluation of the predicate (ties as multisets, sampling by exact binomial bounds).',
+        'note': 'Sampling is bounded (tail 1e-12), not decided. Empty lists and invalid numeric options not generated.',
+    },
 }
 
 NOT_YET = {}
